@@ -2,12 +2,12 @@
 # Second-round variant of confirm_mutants.sh: mutants live in /tmp/mut2/R<k>/mutants/m<n>, the owning
 # property is read from meta.json, the seeded name is <prop>-x<k><n>.
 set -u
-W=/tmp/confirm_wt
+W=${CONFIRM_WT:-/tmp/confirm_wt}
 export CARGO_NET_OFFLINE=true
 if [ ! -d $W ]; then git -C /repo worktree add -q --detach $W HEAD; fi
 git -C $W reset -q --hard; git -C $W checkout -q --detach $(git -C /repo rev-parse HEAD)
 BASE=${1:-/tmp/mut2}; TAG=${2:-x}
-for M in $BASE/*/mutants/m*; do
+for M in ${CONFIRM_GLOB:-$BASE/*/mutants/m*}; do
     [ -f $M/patch.diff ] || continue
     K=$(echo $M | sed "s|.*/[A-Z]\([0-9]*\)/mutants/m\([0-9]*\)|\1\2|")
     P=$(python3 -c "
